@@ -806,7 +806,7 @@ def execute(scenario, want_trace=False):
                 SF = world.snapshot()
                 new += oracles_fault(op, S0, S1, SF, outF, simF, stats)
                 rec["fault"] = {"plan": fault, "fired": simF.fired, "status": outF["status"], "exc": outF.get("exc"),
-                                "post": {f: sha(d) for f, d in sorted(SF.items())}}
+                                "post": {(f if f in S0 or f in S1 else "<stray>"): sha(d) for f, d in sorted(SF.items())}}
                 hist["prev"] = None
                 hist["quiet"] = {}
             else:
@@ -954,7 +954,7 @@ def execute_enum(scenario, nsteps=24):
             outF, simF = run_op(ns, world, knobs, op, fault=f)
             SF = world.snapshot()
             new = oracles_fault(op, S0, S1, SF, outF, simF, stats)
-            digests.append([f, simF.fired is not None, outF["status"], {p: sha(d) for p, d in sorted(SF.items())}])
+            digests.append([f, simF.fired is not None, outF["status"], {(p if p in S0 or p in S1 else "<stray>"): sha(d) for p, d in sorted(SF.items())}])
             for x in new:
                 x["op_index"] = len(ops) - 1
                 x["fault"] = f
